@@ -159,6 +159,10 @@ func (s *Server) handleChannel(ctx context.Context, sshConn gossh.Conn,
 	if err := s.handleRequests(ctx, sshConn, requests, channel, user); err != nil {
 		dlog.Server.Error(user, err)
 		sshConn.Close()
+		// Keep taking the requests the client has already sent. Nobody reads them any
+		// more otherwise, the connection's mux blocks on delivering them and never notices
+		// that the connection is closed (its slot would be taken for good).
+		go gossh.DiscardRequests(requests)
 	}
 }
 
